@@ -200,7 +200,7 @@ func genStream(r *kit.Rand, i int, tier string) []string {
 			ops = append(ops, dirtyPoint(r, times[j]))
 		case kind == 8: // framing-directed: every component is a valid line
 			db, rp := lpLike(r), lpLike(r)
-			ops = append(ops, fmt.Sprintf("pt %s %s m v=%s %d", kit.Esc(db), kit.Esc(rp), renderValue(int64(j)), times[j]))
+			ops = append(ops, fmt.Sprintf("pt %s %s m - v=%s %d", kit.Esc(db), kit.Esc(rp), renderValue(int64(j)), times[j]))
 		default:
 			nt := r.Intn(4)
 			if r.Chance(1, 4) {
